@@ -7,6 +7,7 @@ package varmq
 // Payloads are job keys (ints); the harness worker function derives its outcome from the key.
 
 import (
+	"github.com/goptics/varmq/internal/helpers"
 	"context"
 	"errors"
 	"fmt"
@@ -874,7 +875,8 @@ func runEpisode(prog *progSpec) (res epResult) {
 	}
 	if prog.Sched.Kind != "race" {
 		VerifHook = g.hook
-		defer func() { VerifHook = nil }()
+		helpers.VerifHook = g.hook
+		defer func() { VerifHook = nil; helpers.VerifHook = nil }()
 	}
 	ep.setup()
 	if prog.Cfg.ErrsReader {
